@@ -273,6 +273,11 @@ def run(ctx):
             else:
                 rl.violate(bid, "iterator is %s, expected %s over content in order (mapped to .matched)" % (d, want), c.loc(c.body(bid)["value"].get("sp")))
     rl.require(15, "leaf / iterator functions")
+    from . import store
+    rst = ctx.rule("R17-STORE", "container nodes return, on every path, a node that contains the node of each child that matched on that path "
+                                "(the accessors can only reflect what was stored)")
+    store.store_rule(rst, world)
+    rst.require(30, "container functions")
     # match_choices!: read the expanded `match` from the typed HIR of the fixture (arities 2, 3, 11 = runtime ChoiceN; 12, 13, 17 = derive-generated)
     rm = ctx.rule("R17-MC", "match_choices!: in the expansion arm i matches variant _i of ChoiceN, binds the i-th alternative's node and keeps the "
                             "i-th body; for N >= 12 the ChoiceN is the one the derive generates (variant _i holds alternative i)")
